@@ -417,10 +417,13 @@ async def _replay_async(edge_ids):
     traces = []
     steps = 0
     try:
-        for ei in edge_ids:
+        for item in edge_ids:
+            # an item is an edge, or (loop edge, following edge): an action that leaves the abstract state unchanged
+            # (stray datagram, idle clock step) is never on a BFS-tree path, so it is replayed in front of every edge
+            loop, ei = item if isinstance(item, tuple) else (None, item)
             e = g.edges[ei]
             drv = Driver(client)
-            path = g.path_to(e["_s"])
+            path = g.path_to(e["_s"]) + ([g.edges[loop]] if loop is not None else [])
             mids = []
             evs = []
             for pe in path:
@@ -434,7 +437,7 @@ async def _replay_async(edge_ids):
             if bad:
                 out.append({"history": [p["act"] for p in path] + [e["act"]], "mismatches": bad[:8],
                             "spec_observation": e["obs"], "impl_observation": ev})
-            if _SAMPLE_EVERY and ei % _SAMPLE_EVERY == 0:
+            if _SAMPLE_EVERY and ei % _SAMPLE_EVERY == (0 if loop is None else 1):
                 traces.append(_strip(evs))
     finally:
         await client.aclose()
@@ -499,7 +502,7 @@ class _Agg:
             chk.violation("%s %s: %s" % (kind.upper(), label, clause), {"kind": kind, "clause": clause}, d)
 
 
-def _b1(chk: Check, consts, label, sample_every):
+def _b1(chk: Check, consts, label, sample_every, max_pairs=0):
     global _G, _SAMPLE_EVERY
     res = common.model_check(chk, "ClientCircuit_MC", _mc_cfg(consts, "Spec"), "ClientCircuit_MC " + label)
     recs = common.export_records(chk, "ClientCircuit_MBT", _mc_cfg(consts, "MSpec", check=False, forms=True),
@@ -511,12 +514,20 @@ def _b1(chk: Check, consts, label, sample_every):
     ids = g.reachable_edges()
     if len(ids) != len(g.edges):
         raise MachineryError("unreachable edges in the export")
+    pairs = g.selfloop_pairs()
+    if max_pairs and len(pairs) > max_pairs:
+        # quick tier: a deterministic spread over all (loop, following) pairs
+        step = len(pairs) / float(max_pairs)
+        pairs = [pairs[int(k * step)] for k in range(max_pairs)]
+    chk.cov["b1_selfloop_pairs_replayed"] = chk.cov.get("b1_selfloop_pairs_replayed", 0) + len(pairs)
+    ids = ids + pairs
     # interleave so that chunks have similar cost
     chunks = [ids[i::common.NCPU * 4] for i in range(common.NCPU * 4)]
     import time
     t0 = time.time()
     results = common.parallel_map(_replay_chunk, [c for c in chunks if c])
-    chk.notes.append("B1 %s: %d edges replayed in %.1fs" % (label, len(ids), time.time() - t0))
+    chk.notes.append("B1 %s: %d edges + %d (self-loop, next) pairs of %d replayed in %.1fs" % (
+        label, len(ids) - len(pairs), len(pairs), len(g.selfloop_pairs()), time.time() - t0))
     steps = sum(r[0] for r in results)
     chk.count(steps)
     chk.cov["traces_validated_against_impl"] += len(ids)
